@@ -20,7 +20,9 @@ TRUSTED = [
     'coq/base/Val.v: CPython sqlite3 binding (int64 range, NaN->NULL, lone surrogates rejected) and column decoding; coq/base/DiskBase.v: POSIX text-mode newline semantics of open(); both hand-written, compared with the implementation on every case of this run',
     'codec hypotheses (Section-free, explicit premises of the theorems): pickle.load(pickle.dumps(v, protocol)) = v; json/zlib round trip for JSONDisk; UTF-8 is injective on text without lone surrogates. Checked on every generated value',
 ]
-ASSUMPTIONS = ['file names are fresh (16 random bytes)', 'POSIX (os.linesep == "\\n")']
+ASSUMPTIONS = ['file names are fresh (16 random bytes)', 'POSIX (os.linesep == "\\n")',
+               'overlapping stores: the model store/fetch is a function of one value; that two stores through one shared Disk object do not '
+               'interfere is checked by the overlapping_stores monitor only (threads and re-entrant pickling hooks), not proved']
 
 BIG = 2 ** 15
 
@@ -323,6 +325,255 @@ def faulted_writes(ctx, res, stats):
             cache.close()
 
 
+# ---------------------------------------------------------------------------------------------------------------
+# Stores that overlap on ONE shared object (threads sharing a Cache / FanoutCache / Index, or a store issued while
+# another value is being pickled): every key must still give back the value that was stored under it.
+
+class _GateBase:
+    """A picklable value that runs a one-shot hook while it is being pickled (i.e. inside Disk.store)."""
+    hooks = {}
+
+    def __init__(self, tag):
+        self.tag = tag
+
+    def _fire(self):
+        h = _GateBase.hooks.pop(self.tag, None)
+        if h is not None:
+            h()
+
+    def __eq__(self, o):
+        return type(o) is type(self) and o.tag == self.tag
+
+    def __hash__(self):
+        return hash(self.tag)
+
+    def __repr__(self):
+        return '%s(%r)' % (type(self).__name__, self.tag)
+
+
+class GateReduce(_GateBase):
+    def __reduce__(self):
+        self._fire()
+        return (type(self), (self.tag,))
+
+
+class GateReduceEx(_GateBase):
+    def __reduce_ex__(self, protocol):
+        self._fire()
+        return (type(self), (self.tag,))
+
+
+class GateState(_GateBase):
+    def __getstate__(self):
+        self._fire()
+        return {'tag': self.tag}
+
+    def __setstate__(self, st):
+        self.tag = st['tag']
+
+
+GATES = {'reduce': GateReduce, 'reduce_ex': GateReduceEx, 'getstate': GateState}
+
+# value of the blocked store, around the gate object g (m = min_file_size of the container)
+SHAPES = {
+    'bare': lambda g, m: g,
+    'list_mid': lambda g, m: ['head' * 10, 1, g, 2.5, 'tail'],
+    'dict_last': lambda g, m: {'owner': 'A', 'n': -0.0, 'items': [('a', (1, 2.5, 'x'))], 'g': g},
+    'tuple_first': lambda g, m: (g, b'bytes' * 20, None),
+    'nested': lambda g, m: {'a': [(1, [g, 2 ** 70])], 'b': 'x' * 100},
+    'large_before': lambda g, m: ['x\r\n' * (min(m, BIG) // 3 + 10), g, b'\x00' * 40],
+    'twice': lambda g, m: [g, {'again': g}],
+}
+
+# value of the store that runs meanwhile (pickled and raw ones)
+OTHERS = {
+    'none': lambda m: None,
+    'tuple': lambda m: (1, 2.0, 'x', b'y', None),
+    'dict': lambda m: {'owner': 'B', 'items': [('b', (None, True))], 'n': 2 ** 70},
+    'bigint': lambda m: 2 ** 64,
+    'list_crlf': lambda m: [b'\r\n' * 50],
+    'frozenset': lambda m: frozenset({1, 2}),
+    'large_pickle': lambda m: ['y' * (min(m, BIG) + 10)],
+    'gate_free': lambda m: [GateReduce('free'), GateState('free')],
+    'bool': lambda m: True,
+    'str': lambda m: 'plain text \r\n' * 3,
+    'bytes': lambda m: b'\x00\xffplain bytes',
+    'int': lambda m: 7,
+    'float': lambda m: -0.0,
+    'nan': lambda m: float('nan'),
+}
+
+SHARED_KINDS = ['Cache.set', 'Cache.add', 'Cache.push', 'FanoutCache1.set', 'FanoutCache2.set', 'FanoutCache2.add', 'Index.setitem']
+
+
+class _Worker:
+    """one persistent second thread per shared object (its own SQLite connection, the SAME Cache/Disk object)"""
+
+    def __init__(self):
+        import queue
+        import threading
+        self.q = queue.Queue()
+        self.t = threading.Thread(target=self._loop, daemon=True)
+        self.t.start()
+
+    def _loop(self):
+        while True:
+            f = self.q.get()
+            if f is None:
+                return
+            f()
+
+    def submit(self, f):
+        self.q.put(f)
+
+    def stop(self):
+        self.q.put(None)
+        self.t.join(10)
+
+
+class Shared:
+    def __init__(self, directory, kind, m, protocol):
+        kw = dict(disk_min_file_size=m, disk_pickle_protocol=protocol, eviction_policy='none')
+        cont, self.op = kind.split('.')
+        self.kind, self.cont = kind, cont.rstrip('0123456789')
+        if cont == 'Cache':
+            self.obj = diskcache.Cache(directory, **kw)
+        elif cont.startswith('FanoutCache'):
+            self.obj = diskcache.FanoutCache(directory, shards=int(cont[len('FanoutCache'):]), **kw)
+        else:
+            self.obj = diskcache.Index.fromcache(diskcache.Cache(directory, **kw))
+        self.worker = _Worker()
+
+    def store(self, k, v):
+        o = self.obj
+        if self.op == 'set':
+            return o.set(k, v, retry=True)
+        if self.op == 'add':
+            return o.add(k, v, retry=True)
+        if self.op == 'push':
+            return o.push(v, prefix=k, retry=True)
+        o[k] = v
+        return True
+
+    def absent(self, k):
+        if self.op == 'push':
+            return self.obj.peek(prefix=k, default=('<none>', '<none>')) == ('<none>', '<none>')
+        return k not in self.obj
+
+    def readers(self, k):
+        o = self.obj
+        if self.op == 'push':
+            return [('peek', lambda: o.peek(prefix=k)[1]), ('pull', lambda: o.pull(prefix=k)[1])]
+        if self.cont == 'Index':
+            return [('index[]', lambda: o[k]), ('index.get', lambda: o.get(k)), ('index.pop', lambda: o.pop(k))]
+        return [('get', lambda: o.get(k)), ('getitem', lambda: o[k]), ('pop', lambda: o.pop(k))]
+
+    def close(self):
+        self.worker.stop()
+        (self.obj.cache if self.cont == 'Index' else self.obj).close()
+
+
+_overlap_n = [0]
+
+
+def overlap_case(env, p, m):
+    """One scenario.  The store of value A (shape p['shape'] around a gate of kind p['gate']) is suspended INSIDE the
+    pickling of A; meanwhile value B (p['other']) is stored completely through the same object -- by a second thread
+    (p['mode'] == 'threads') or by the suspended thread itself (p['mode'] == 'reentrant').  Returns (problems, info)."""
+    import threading
+    _overlap_n[0] += 1
+    n = _overlap_n[0]
+    g = GATES[p['gate']]('g%d' % n)
+    va = SHAPES[p['shape']](g, m)
+    vb = OTHERS[p['other']](m)
+    ka, kb = 'a%d' % n, 'b%d' % n
+    box = {'fired': False, 'overlapped': False}
+    done = threading.Event()
+
+    def b_job():
+        try:
+            box['b_ret'] = env.store(kb, vb)
+        except Exception as e:  # noqa
+            box['b_exc'] = e
+        finally:
+            done.set()
+
+    def hook():
+        box['fired'] = True
+        if p['mode'] == 'threads':
+            env.worker.submit(b_job)
+            box['overlapped'] = done.wait(10)
+        else:
+            b_job()
+            box['overlapped'] = True
+
+    _GateBase.hooks[g.tag] = hook
+    try:
+        box['a_ret'] = env.store(ka, va)
+    except Exception as e:  # noqa
+        box['a_exc'] = e
+    finally:
+        _GateBase.hooks.pop(g.tag, None)
+    if not box['fired']:
+        env.worker.submit(b_job)
+    done.wait(60)
+    problems = []
+    for who, k, v in (('suspended', ka, va), ('meanwhile', kb, vb)):
+        exc = box.get(who[0] == 's' and 'a_exc' or 'b_exc')
+        ret = box.get(who[0] == 's' and 'a_ret' or 'b_ret')
+        if exc is not None or ret is False:
+            try:
+                if not env.absent(k):
+                    problems.append(('rejected_but_stored', 'the %s store raised %r / returned %r but its key exists' % (who, exc, ret)))
+            except Exception as e:  # noqa
+                problems.append(('rejected_but_stored', 'the %s store raised %r and looking its key up raised %r' % (who, exc, e)))
+            continue
+        for name, f in env.readers(k):
+            try:
+                got = f()
+                ok = same(got, v)
+            except Exception as e:  # noqa
+                got, ok = ('<raised>', type(e).__name__, str(e)[:80]), False
+            if not ok:
+                problems.append(('store_overlap:%s:%s' % (p['mode'], env.cont),
+                                 'the value of the %s store (%s) came back through %s as %s; the other store put %s under a different key of the same %s object'
+                                 % (who, short(v), name, short(got), short(vb if who[0] == 's' else va), env.kind)))
+                break
+    return problems, box
+
+
+def overlapping_stores(ctx, res, stats, thorough):
+    protos = list(range(0, pickle.HIGHEST_PROTOCOL + 1)) if thorough else [0, 2, pickle.HIGHEST_PROTOCOL]
+    shapes, gates, others = sorted(SHAPES), sorted(GATES), sorted(OTHERS)
+    st = stats.setdefault('overlapping_stores', {'scenarios': 0, 'overlapped': 0, 'gate_not_reached': 0})
+    rot = ctx.seed
+    for kind in SHARED_KINDS:
+        for m in (0, 64, BIG):
+            for protocol in protos:
+                env = Shared(ctx.scratch('c01sh'), kind, m, protocol)
+                try:
+                    for si, shape in enumerate(shapes):
+                        for gi, gate in enumerate(gates):
+                            if thorough:
+                                combos = [(mode, o) for mode in ('threads', 'reentrant') for o in others]
+                            else:
+                                rot += 1
+                                combos = [('threads', others[rot % len(others)]), ('reentrant', others[(rot * 5 + 3) % len(others)])]
+                            for mode, other in combos:
+                                p = {'check': 'overlapping_stores', 'kind': kind, 'min_file_size': m, 'protocol': protocol,
+                                     'mode': mode, 'shape': shape, 'gate': gate, 'other': other}
+                                problems, box = overlap_case(env, p, m)
+                                st['scenarios'] += 1
+                                st['overlapped'] += int(bool(box['overlapped']))
+                                st['gate_not_reached'] += int(not box['fired'])
+                                res.count(['overlap', kind, m, protocol, mode, shape, gate, other], nontrivial=bool(box['overlapped']))
+                                for sig, desc in problems:
+                                    res.violations.append(fw.Violation(sig, desc, dict(p)))
+                finally:
+                    env.close()
+    res.sample({'check': 'overlapping_stores', 'kinds': SHARED_KINDS, 'scenarios': st['scenarios'], 'overlapped': st['overlapped']})
+
+
 def witnesses(res):
     """Replay the witnesses of the findings listed for C01 on the implementation."""
     import tempfile, shutil
@@ -355,7 +606,11 @@ def run(ctx, big_budget=False):
                 '{a,CR,LF,NUL,U+0085,U+2028,astral,lone surrogate}, bytes, None/bool/containers, streams) at lengths min_file_size+{-2..2} '
                 'x min_file_size {0,1,8,32768} x pickle protocols x Disk/JSONDisk, stored and read back through get, [], read, pop, peekitem, '
                 'push/peek/pull, Deque [] / pop, Index [] / pop; monitor: same type and equal (NaN- and sign-aware); model store/fetch compared '
-                'with the row, the file bytes and the lookup result.  distinct = distinct (disk, threshold, protocol, value).')
+                'with the row, the file bytes and the lookup result.  distinct = distinct (disk, threshold, protocol, value).  '
+                'Overlapping stores on ONE shared object (Cache set/add/push, FanoutCache with 1 and 2 shards set/add, Index []=): the store of a value '
+                '(7 shapes around an object whose __reduce__ / __reduce_ex__ / __getstate__ is suspended in the middle of pickling) overlaps a complete '
+                'store of another value (14 pickled and raw ones) under another key, by a second thread sharing the object or re-entrantly from the '
+                'pickling hook, x min_file_size {0,64,32768} x protocols; afterwards each key gives back its own value through get/[]/pop/peek/pull.')
     import time as _t
     t0 = _t.time()
     stats = {'rejected': {}, 'kinds': {}, 'file_backed': 0, 'accessor_calls': 0}
@@ -379,6 +634,10 @@ def run(ctx, big_budget=False):
         dq.cache.close()
         ix.cache.close()
     faulted_writes(ctx, res, stats)
+    t2 = _t.time()
+    overlapping_stores(ctx, res, stats, thorough)
+    res.extra['timing']['overlapping_stores_s'] = round(_t.time() - t2, 1)
+    res.extra['overlapping_stores'] = stats.get('overlapping_stores')
     res.extra.update({'faulted_write_cases': stats.get('faulted_writes', 0), 'rejected_by_exception': stats['rejected'], 'value_kinds': stats['kinds'],
                       'file_backed_cases': stats['file_backed'], 'accessor_calls': stats['accessor_calls']})
     witnesses(res)
@@ -392,6 +651,18 @@ def search(ctx, broken):
 def replay(payload):
     case = payload.get('case', {})
     import tempfile, shutil
+    if case.get('check') == 'overlapping_stores':
+        d = tempfile.mkdtemp(prefix='c01r-')
+        env = Shared(d, case['kind'], case['min_file_size'], case['protocol'])
+        try:
+            problems, box = overlap_case(env, case, case['min_file_size'])
+            print('overlapped=%s' % box['overlapped'])
+            for sig, desc in problems:
+                print(sig, desc)
+            return not problems
+        finally:
+            env.close()
+            shutil.rmtree(d, ignore_errors=True)
     d = tempfile.mkdtemp(prefix='c01r-')
     try:
         disk = getattr(diskcache, case.get('disk', 'Disk'))
